@@ -424,7 +424,11 @@ func (req *SrvReq) Respond() {
 
 	verifPoint("resp_enq", conn, req)
 	if (status & reqFlush) == 0 {
-		conn.reqout <- req
+		select {
+		case conn.reqout <- req:
+		case <-conn.done:
+			/* the connection is gone, nobody will send the reply */
+		}
 	}
 
 	verifPoint("resp_next", conn, req)
